@@ -536,15 +536,14 @@ def clause_g(rep, F):
     if E is None:
         raise facts.MissingAnchor("engine E5 not available")
     table, _sm = C02.dispatch_table(F)
+    roles = C02.load_roles()
     n = 0
+    npair = 0
     seen = set()
     for st, d in sorted(table.items(), key=str):
         if d is None or d[0] == "unreachable" or d[0] not in F.fns:
             continue
         for key, args in [(d[0], tuple(d[1]))]:
-            if (key, args) in seen:
-                continue
-            seen.add((key, args))
             bad = []
             for o in E.outcomes(key, args):
                 if o.get("kind") != "return":
@@ -560,10 +559,25 @@ def clause_g(rep, F):
                     n += 1
                     if not o.get("slot"):
                         bad.append(o.get("trace", [])[-6:])
+                    # key/value pairing: an omitted key is followed by its value, an omitted value by the next key
+                    ent = roles["states"].get(st) or {}
+                    fam = ent.get("family", {})
+                    want = None
+                    if ent.get("role") == "MapKey":
+                        want = set(fam.get("values", []))
+                    elif ent.get("role") == "MapValue":
+                        want = {fam.get("key")}
+                    if want and o.get("written") is not None:
+                        npair += 1
+                        rep.check(o["written"] in want, "omitted-node-next-state", "%s->%s" % (st, o["written"]),
+                                  "after reporting an omitted %s the parser goes to state %s instead of %s: the null %s is not paired with the node that follows" % (
+                                      "key" if ent["role"] == "MapKey" else "value", o["written"], " / ".join(sorted(x_ for x_ in want if x_)),
+                                      "key" if ent["role"] == "MapKey" else "value"), site=F.fns[key].span)
             rep.check(not bad, "omitted-node-keeps-token", "%s%s" % (short(key).split("::")[-1], list(args) if args else ""),
                       "the handler reports an omitted node (empty scalar) after consuming the token that showed the node was omitted: that token is "
                       "the ':' / ',' / closing bracket of the enclosing construct and the parser loses it", site=F.fns[key].span, detail={"paths": bad[:3]})
     rep.floor("handler outcomes that report an omitted node", n, 10)
+    rep.floor("omitted keys / values with a known next state", npair, 4)
 
 
 # where a node may start an indentless sequence (a block sequence at the indentation of its parent key) and whether it is in block context:
